@@ -155,6 +155,7 @@ class PolyInterp:
         self.notes = []
         self.globals = {}
         self.atom_info = {}
+        self.qx = {}
         self.assumed = set()
         import re as _re
         self.readonly = [_re.compile(r) for r in readonly]   # callees that do not write objects passed by (const) reference
@@ -232,7 +233,13 @@ class PolyInterp:
             hi += max(c)
         return (lo, hi)
 
-    def div(self, op, a, b):
+    def div(self, op, a, b, exact=False):
+        """exact: the IR asserts that the division has no remainder (pointer differences); the quotient is then kept as an
+        atom QX(a,c) standing for the rational a/c, and comparisons multiply it out again (see cmp)"""
+        if exact and op in ("sdiv", "udiv") and b.is_const() and b.const_value() > 0 and not a.is_const() and not a.divisible_by(b.const_value()):
+            nm = "QX(%r,%d)" % (a, b.const_value())
+            self.qx[nm] = (a, b.const_value())
+            return Poly.atom(nm)
         signed = op in ("sdiv", "srem")
         rem = op in ("urem", "srem")
         if b.is_const() and b.const_value() != 0:
@@ -293,7 +300,33 @@ class PolyInterp:
                 return Poly(q), Poly(r)
         return None, None
 
+    def unqx(self, d):
+        """multiply a difference by the common denominator of its exact quotients (sign and zero-ness are preserved)"""
+        ats = [x for x in d.atoms() if x in self.qx]
+        if not ats:
+            return d
+        cs = {self.qx[x][1] for x in ats}
+        if len(cs) != 1 or any(sum(1 for y in mon if y in self.qx) > 1 for mon in d.t):
+            return d
+        c = cs.pop()
+        out = Poly()
+        for mon, v in d.t.items():
+            q = [y for y in mon if y in self.qx]
+            if q:
+                rest = list(mon)
+                rest.remove(q[0])
+                term = self.qx[q[0]][0].scale(v)
+                for y in rest:
+                    term = term * Poly.atom(y)
+            else:
+                term = Poly({mon: v * c})
+            out = out + term
+        return out
+
     def cmp(self, pred, a, b):
+        d0 = self.unqx(a - b)
+        if d0 != a - b:
+            a, b = d0, Poly()
         d = a - b
         if d.is_const():
             x = d.const_value()
@@ -478,12 +511,12 @@ class PolyInterp:
         elif op in ("lshr", "ashr"):
             a, b = self.operand(ops[0]), self.operand(ops[1])
             if b.is_const() and 0 <= b.const_value() < 64:
-                self.val[i] = self.div("sdiv" if op == "ashr" else "udiv", a, Poly.const(1 << b.const_value())) \
-                    if (a.divisible_by(1 << b.const_value())) else self.fn_atom(op.upper(), a, b)
+                self.val[i] = self.div("sdiv" if op == "ashr" else "udiv", a, Poly.const(1 << b.const_value()), exact=bool(inst.get("exact"))) \
+                    if (a.divisible_by(1 << b.const_value()) or inst.get("exact")) else self.fn_atom(op.upper(), a, b)
             else:
                 self.val[i] = self.fn_atom(op.upper(), a, b)
         elif op in ("udiv", "sdiv", "urem", "srem"):
-            self.val[i] = self.div(op, self.operand(ops[0]), self.operand(ops[1]))
+            self.val[i] = self.div(op, self.operand(ops[0]), self.operand(ops[1]), exact=bool(inst.get("exact")))
         elif op in ("and", "or", "xor"):
             a, b = self.operand(ops[0]), self.operand(ops[1])
             if a.is_const() and b.is_const():
